@@ -310,6 +310,24 @@ func (s *Store) Op(op string, ty TyClass, args ...*Term) *Term {
 		if b, ok := args[1].IntVal(); ok && b == 1 {
 			return args[0]
 		}
+		if b, ok := args[1].IntVal(); ok && b > 1 {
+			// exact when every coefficient and the offset are multiples of b
+			as, cs, off := linParts(args[0])
+			bb := big.NewInt(b)
+			all := new(big.Int).Mod(off, bb).Sign() == 0
+			for _, c := range cs {
+				if new(big.Int).Mod(c, bb).Sign() != 0 {
+					all = false
+				}
+			}
+			if all && len(as) > 0 {
+				nc := make([]*big.Int, len(cs))
+				for i := range cs {
+					nc[i] = new(big.Int).Quo(cs[i], bb)
+				}
+				return s.linMake(as, nc, new(big.Int).Quo(off, bb))
+			}
+		}
 	case "imod":
 		if a, ok := args[0].IntVal(); ok {
 			if b, ok2 := args[1].IntVal(); ok2 && b != 0 {
